@@ -119,12 +119,13 @@ def main() -> int:  # noqa: C901, PLR0915
             if ce and "__error__" not in ce:
                 # concrete run under a profiler: which /repo functions the obligation executes
                 seen = set()
+                _REPO = os.environ.get("VERIF_REPO", "/repo")
 
                 def prof(frame, event, arg):
                     if event == "call":
                         fnm = frame.f_code.co_filename
-                        if fnm.startswith("/repo/pipefunc"):
-                            seen.add(fnm[len("/repo/") :] + ":" + frame.f_code.co_qualname)
+                        if fnm.startswith(_REPO + "/pipefunc"):
+                            seen.add(fnm[len(_REPO) + 1 :] + ":" + frame.f_code.co_qualname)
 
                 try:
                     sys.setprofile(prof)
